@@ -7,6 +7,12 @@ repository's own test-suite). Each judges the calls it sees with an oracle and a
   M-simplify  Simplifier.simplify             evaluation under sampled interpretations, FV, idempotence   (C11)
   M-sim       UPSequentialSimulator.apply / is_applicable   reference successor semantics      (C01, C02)
   M-state     UPState (vk/mon/statemon.py)    finite-map shadow model                          (C36)
+  M-kind      <problem class>.kind            from-scratch syntactic feature extractor vk/ref/kindx.py   (C10)
+  M-clone     <problem / action class>.clone  ==, hash, kind; independence probe on a second clone       (C22)
+  M-kindorder ProblemKind ==, <=, hash, union, intersection   set-of-features model vk/ref/lattice.py    (C33)
+  M-dnf       Nnf.get_nnf_expression / Dnf.get_dnf_expression   shape + truth value under random first-order models  (C12)
+  M-types     TypeChecker.get_type            inferred interval vs exact evaluation; mirrored Equals      (C15)
+  M-names     PDDLWriter / ANMLWriter output  lexical oracle of C38 on the observed writer's own name tables and text  (C38)
 
 Used by vk/mon/pytest_plugin.py (repo test-suite under monitors) — thorough tier of C01, C02, C11, C13, C14, C16.
 Every monitor counts its evaluations; zero evaluations => the owning check is inconclusive."""
@@ -72,6 +78,9 @@ def install_all(log, which=("node", "subst", "quiescent", "simplify", "sim")):
         from vk.mon import statemon
 
         un.append(statemon.install(log))
+    for name, fn in (("kind", install_kind), ("clone", install_clone), ("kindorder", install_kindorder), ("dnf", install_dnf), ("types", install_types), ("names", install_names)):
+        if name in which:
+            un.append(fn(log))
 
     def uninstall():
         for u in reversed(un):
@@ -384,5 +393,957 @@ def install_sim(log, max_ground=300):
     def un():
         UPSequentialSimulator._apply = orig_apply
         UPSequentialSimulator._is_applicable = orig_app
+
+    return un
+
+
+# ------------------------------------------------------------------------------------------------------------ helpers (2)
+def _test_id():
+    return os.environ.get("PYTEST_CURRENT_TEST", "").split(" (")[0]
+
+
+class _PerTest:
+    """budget per running test (the test id is read from PYTEST_CURRENT_TEST): at most `cap` units per test"""
+
+    def __init__(self, cap):
+        self.cap = cap
+        self.test = None
+        self.used = 0
+
+    def take(self):
+        t = _test_id()
+        if t != self.test:
+            self.test, self.used = t, 0
+        if self.used >= self.cap:
+            return False
+        self.used += 1
+        return True
+
+
+def _problem_classes():
+    """the concrete problem classes that define their own `kind` / `clone`"""
+    from unified_planning.model import Problem
+    from unified_planning.model.contingent import ContingentProblem
+    from unified_planning.model.htn import HierarchicalProblem
+    from unified_planning.model.multi_agent import MultiAgentProblem
+    from unified_planning.model.scheduling import SchedulingProblem
+
+    out = [Problem, ContingentProblem, HierarchicalProblem, MultiAgentProblem, SchedulingProblem]
+    try:
+        from unified_planning.model.motion.scheduling_motion_problem import SchedulingMotionProblem
+
+        out.append(SchedulingMotionProblem)
+    except Exception:
+        pass
+    return out
+
+
+# ----------------------------------------------------------------------------------------------------------------- M-kind
+def install_kind(log, per_test=500):
+    """Every `<problem>.kind` evaluated by the workload (outermost evaluation only: ContingentProblem.kind calls
+    Problem.kind) is judged against the from-scratch syntactic extractor of C10 (vk/ref/kindx.py): every requirement
+    found at some syntactic position must be met by the returned feature set. Don't-care classes = those of kindx."""
+    from vk.ref import kindx
+    from vk.checks import c10 as _c10
+
+    depth = [0]
+    budget = _PerTest(per_test)
+    saved = []
+
+    def judge(pb, kind):
+        pc, reqs, notes = kindx.extract(pb)
+        if pc is None:
+            log.count("M-kind:unknown_problem_class")
+            return
+        feats = set(kind.features)
+        log.count("M-kind:judged")
+        log.count("M-kind:class:" + pc)
+        for k, v in notes.items():
+            log.count("M-kind:" + k, v)
+        miss = kindx.missing(reqs, feats)
+        if not miss:
+            return
+        fresh = None
+        try:
+            fresh = set(pb.clone().kind.features)  # diagnosis only (mechanism string), as in vk/checks/c10.py
+        except Exception:
+            fresh = None
+        by_mech = {}
+        for alts, label, family, pos in miss:
+            if fresh is not None and any(a in fresh for a in alts):
+                mech = f"stale-kind-after-mutation:{family}"
+            elif pc == "ma" and pos.startswith("ma:agent-fluent") and _c10._only_from_name_sharing_fluents(pb, alts, pos):
+                mech = "missing:ma:agent-fluent-sharing-its-name-with-a-fluent-of-another-agent"
+            else:
+                mech = _c10.mechanism(pos, family)
+            by_mech.setdefault(mech, []).append(f"{'|'.join(alts)} (used at {pos})")
+        for mech, items in sorted(by_mech.items()):
+            log.violation("C10", mech, f"kind of {type(pb).__name__} '{pb.name}' lacks " + "; ".join(items[:4]), kind_features=sorted(feats))
+
+    def make(fget):
+        def kind(self):
+            depth[0] += 1
+            try:
+                k = fget(self)
+            except BaseException as e:
+                if depth[0] == 1 and not GUARD.busy:
+                    log.count("M-kind:raises:" + type(e).__name__)
+                raise
+            finally:
+                depth[0] -= 1
+            if depth[0] == 0 and not GUARD.busy:
+                log.count("M-kind:evaluations")
+                if budget.take():
+                    with GUARD:
+                        try:
+                            judge(self, k)
+                        except Exception:
+                            log.count("M-kind:monitor_errors")
+                else:
+                    log.count("M-kind:over_budget_not_judged")
+            return k
+
+        return kind
+
+    for cls in _problem_classes():
+        p = cls.__dict__.get("kind")
+        if isinstance(p, property):
+            saved.append((cls, p))
+            setattr(cls, "kind", property(make(p.fget), doc=p.__doc__))
+
+    def un():
+        for cls, p in saved:
+            setattr(cls, "kind", p)
+
+    return un
+
+
+# ---------------------------------------------------------------------------------------------------------------- M-clone
+_PROBE = "vk_probe_"
+
+
+def _probe_problem(C2, note):
+    """Edits a problem through the public model-building API (every edit may be rejected: only applied edits count)."""
+    import unified_planning as up
+    from unified_planning.model import Fluent, InstantaneousAction, DurativeAction, StartTiming, EndTiming, GlobalStartTiming
+    from unified_planning.model.multi_agent import MultiAgentProblem
+    from unified_planning.model.scheduling import SchedulingProblem
+    from unified_planning.model.htn import HierarchicalProblem
+
+    env = C2.environment
+    em = env.expression_manager
+    fl = Fluent(_PROBE + "f", env.type_manager.BoolType(), environment=env)
+
+    def edit(name, fn):
+        try:
+            fn()
+            note(name)
+        except Exception:
+            pass
+
+    def edit_action(a, tag):
+        if isinstance(a, InstantaneousAction):
+            edit(tag + "add_precondition", lambda: a.add_precondition(em.FluentExp(fl)))
+            edit(tag + "add_effect", lambda: a.add_effect(em.FluentExp(fl), em.TRUE()))
+        elif isinstance(a, DurativeAction):
+            edit(tag + "add_condition", lambda: a.add_condition(StartTiming(), em.FluentExp(fl)))
+            edit(tag + "add_effect", lambda: a.add_effect(EndTiming(), em.FluentExp(fl), em.TRUE()))
+        edit(tag + "rename", lambda: setattr(a, "name", a.name + "_" + _PROBE))
+
+    if isinstance(C2, MultiAgentProblem):
+        edit("env.add_fluent", lambda: C2.ma_environment.add_fluent(fl, default_initial_value=False))
+        for ag in list(C2.agents)[:2]:
+            for a in list(ag.actions)[:2]:
+                edit_action(a, "agent.action.")
+            edit("agent.add_fluent", lambda ag=ag: ag.add_fluent(Fluent(_PROBE + "g", env.type_manager.BoolType(), environment=env), default_initial_value=False))
+            edit("agent.add_public_goal", lambda ag=ag: ag.add_public_goal(em.FluentExp(fl)))
+        edit("add_goal", lambda: C2.add_goal(em.FluentExp(fl)))
+        edit("add_agent", lambda: C2.add_agent(up.model.multi_agent.Agent(_PROBE + "agent", C2)))
+    else:
+        edit("add_fluent", lambda: C2.add_fluent(fl, default_initial_value=False))
+        if isinstance(C2, SchedulingProblem):
+            for act in list(C2.activities)[:2]:
+                edit("activity.add_condition", lambda act=act: act.add_condition(StartTiming(), em.FluentExp(fl)))
+                edit("activity.add_effect", lambda act=act: act.add_effect(act.end, em.FluentExp(fl), em.TRUE()))
+            edit("add_activity", lambda: C2.add_activity(_PROBE + "activity", duration=1))
+            edit("add_constraint", lambda: C2.add_constraint(em.FluentExp(fl)))
+            edit("add_condition", lambda: C2.add_condition(GlobalStartTiming(3), em.FluentExp(fl)))
+            edit("add_effect", lambda: C2.add_effect(GlobalStartTiming(3), em.FluentExp(fl), em.TRUE()))
+        else:
+            for a in list(C2.actions)[:3]:
+                edit_action(a, "action.")
+            edit("add_goal", lambda: C2.add_goal(em.FluentExp(fl)))
+            edit("add_timed_goal", lambda: C2.add_timed_goal(GlobalStartTiming(3), em.FluentExp(fl)))
+            edit("add_timed_effect", lambda: C2.add_timed_effect(GlobalStartTiming(3), em.FluentExp(fl), em.TRUE()))
+            edit("add_state_invariant", lambda: C2.add_state_invariant(em.FluentExp(fl)))
+            edit("add_action", lambda: C2.add_action(InstantaneousAction(_PROBE + "action", _env=env)))
+            if isinstance(C2, HierarchicalProblem):
+                for m in list(C2.methods)[:2]:
+                    edit("method.add_precondition", lambda m=m: m.add_precondition(em.FluentExp(fl)))
+                edit("add_task", lambda: C2.add_task(_PROBE + "task"))
+                edit("task_network.add_constraint", lambda: C2.task_network.add_constraint(em.FluentExp(fl)))
+        edit("add_quality_metric", lambda: C2.add_quality_metric(up.model.metrics.MinimizeMakespan(environment=env)))
+    uts = list(C2.user_types)
+    if uts:
+        edit("add_object", lambda: C2.add_object(_PROBE + "o", uts[0]))
+    for k, v in list(C2.explicit_initial_values.items())[:2]:
+        if v.is_bool_constant():
+            edit("set_initial_value", lambda k=k, v=v: C2.set_initial_value(k, not v.bool_constant_value()))
+    edit("rename", lambda: setattr(C2, "name", (C2.name or "") + "_" + _PROBE))
+
+
+def _probe_action(A2, note):
+    from unified_planning.model import Fluent, InstantaneousAction, DurativeAction, StartTiming, EndTiming
+
+    env = A2.environment
+    em = env.expression_manager
+    fl = Fluent(_PROBE + "f", env.type_manager.BoolType(), environment=env)
+
+    def edit(name, fn):
+        try:
+            fn()
+            note(name)
+        except Exception:
+            pass
+
+    if isinstance(A2, InstantaneousAction):
+        edit("add_precondition", lambda: A2.add_precondition(em.FluentExp(fl)))
+        edit("add_effect", lambda: A2.add_effect(em.FluentExp(fl), em.TRUE()))
+        for e in list(A2.effects)[:1]:
+            edit("effect.set_condition", lambda e=e: e.set_condition(em.FluentExp(fl)))
+    elif isinstance(A2, DurativeAction):
+        edit("add_condition", lambda: A2.add_condition(StartTiming(), em.FluentExp(fl)))
+        edit("add_effect", lambda: A2.add_effect(EndTiming(), em.FluentExp(fl), em.TRUE()))
+        edit("set_fixed_duration", lambda: A2.set_fixed_duration(977))
+        for t, el in list(A2.effects.items())[:1]:
+            for e in el[:1]:
+                edit("effect.set_condition", lambda e=e: e.set_condition(em.FluentExp(fl)))
+    else:
+        edit("add_precondition", lambda: A2.add_precondition(em.FluentExp(fl)))
+        edit("add_effect", lambda: A2.add_effect(em.FluentExp(fl), em.TRUE()))
+    edit("rename", lambda: setattr(A2, "name", A2.name + "_" + _PROBE))
+
+
+def install_clone(log, per_test=600, deep_per_test=4):
+    """Every clone() of a problem (Problem, Contingent-, Hierarchical-, MultiAgent-, Scheduling-) and every *direct* clone() of an
+    action / event / process made by the workload: same class, clone == original both ways, equal hashes; for the first
+    few clones of every test also equal kinds and an independence probe that never touches an object the workload owns:
+    a SECOND clone is edited through the public model-building API and the original's canonical form (repr) must not change."""
+    from vk.checks import c22 as _c22
+
+    depth = [0]
+    budget = _PerTest(per_test)
+    deep = _PerTest(deep_per_test)
+    deep_a = _PerTest(deep_per_test)
+    saved = []
+    pclasses = _problem_classes()
+
+    def action_classes():
+        from unified_planning.model import InstantaneousAction, DurativeAction
+        from unified_planning.model.contingent import SensingAction
+
+        out = [InstantaneousAction, DurativeAction, SensingAction]
+        try:
+            from unified_planning.model.natural_transition import Process, Event
+
+            out += [Process, Event]
+        except Exception:
+            pass
+        return out
+
+    def selfeq(x):
+        try:
+            return bool(x == x)
+        except Exception:
+            return None
+
+    def judge_problem(P, C, orig):
+        cls = type(P).__name__
+        log.count("M-clone:judged")
+        log.count("M-clone:problem:" + cls)
+        if type(C) is not type(P):
+            log.violation("C22", f"clone-class-differs:{cls}", f"clone of a {cls} is a {type(C).__name__}")
+            return
+        try:
+            e1, e2 = bool(C == P), bool(P == C)
+        except Exception as e:
+            if selfeq(P) is None:
+                log.count(f"M-clone:dontcare_eq_raises_even_on_self:{cls}")
+            else:
+                log.violation("C22", f"eq-raises-after-clone:{cls}:{type(e).__name__}", f"comparing clone and original of '{P.name}' raised {e!r}")
+            return
+        if not (e1 and e2):
+            comps = _c22.differing(cls, P, C, True) if cls in _c22.CLASSES else []
+            for comp in comps or ["unknown"]:
+                log.violation("C22", f"clone-not-equal:{cls}:{comp}", f"{cls} '{P.name}': clone == original is {e1}, original == clone is {e2}; differing components: {comps}")
+            return
+        try:
+            if hash(C) != hash(P):
+                log.violation("C22", f"clone-hash-differs:{cls}", f"{cls} '{P.name}': clone == original but the hashes differ")
+        except Exception as e:
+            log.violation("C22", f"hash-raises:{cls}:{type(e).__name__}", f"hash raised {e!r}")
+        if not deep.take():
+            return
+        # ---- same kind
+        try:
+            kp = P.kind
+        except Exception:
+            kp = None
+        if kp is not None:
+            log.count("M-clone:kinds_compared")
+            try:
+                kc = C.kind
+                if not (kc == kp):
+                    log.violation("C22", f"clone-kind-differs:{cls}", f"{cls} '{P.name}': kinds differ: {sorted(set(kp.features) ^ set(kc.features))}")
+            except Exception as e:
+                log.violation("C22", f"clone-kind-differs:{cls}", f"{cls} '{P.name}': kind of the clone raised {e!r}")
+        # ---- independence: edit a second clone, the original (and the clone handed to the workload) must not change
+        before_p, before_c = repr(P), repr(C)
+        C2 = orig(P)
+        applied = []
+        _probe_problem(C2, applied.append)
+        log.count("M-clone:independence_probes")
+        log.count("M-clone:probe_edits_applied", len(applied))
+        if repr(P) != before_p:
+            log.violation("C22", f"not-independent:{cls}", f"{cls} '{P.name}': editing a clone ({', '.join(applied)}) changed the original")
+        elif repr(C) != before_c:
+            log.violation("C22", f"not-independent:{cls}:sibling-clone", f"{cls} '{P.name}': editing a clone ({', '.join(applied)}) changed another clone of the same problem")
+
+    def judge_action(A, C, orig):
+        cls = type(A).__name__
+        log.count("M-clone:judged")
+        log.count("M-clone:action:" + cls)
+        if type(C) is not type(A):
+            log.violation("C22", f"action-clone-class-differs:{cls}", f"clone of a {cls} is a {type(C).__name__}")
+            return
+        try:
+            e1, e2 = bool(C == A), bool(A == C)
+        except Exception as e:
+            if selfeq(A) is None:
+                log.count(f"M-clone:dontcare_eq_raises_even_on_self:{cls}")
+            else:
+                log.violation("C22", f"action-eq-raises-after-clone:{cls}:{type(e).__name__}", f"comparing clone and original of action '{A.name}' raised {e!r}")
+            return
+        if not (e1 and e2):
+            log.violation("C22", f"action-clone-not-equal:{cls}", f"{cls} '{A.name}': clone == original is {e1}, original == clone is {e2}")
+            return
+        if hash(C) != hash(A):
+            log.violation("C22", f"action-clone-hash-differs:{cls}", f"{cls} '{A.name}': clone == original but the hashes differ")
+        if not deep_a.take():
+            return
+        before_a, before_c = repr(A), repr(C)
+        A2 = orig(A)
+        applied = []
+        _probe_action(A2, applied.append)
+        log.count("M-clone:independence_probes")
+        log.count("M-clone:probe_edits_applied", len(applied))
+        if repr(A) != before_a:
+            log.violation("C22", f"action-clone-not-independent:{cls}", f"{cls} '{A.name}': editing a clone ({', '.join(applied)}) changed the original")
+        elif repr(C) != before_c:
+            log.violation("C22", f"action-clone-not-independent:{cls}:sibling-clone", f"{cls} '{A.name}': editing a clone ({', '.join(applied)}) changed another clone")
+
+    def make(orig, judge):
+        def clone(self, *a, **kw):
+            depth[0] += 1
+            try:
+                c = orig(self, *a, **kw)
+            finally:
+                depth[0] -= 1
+            if depth[0] == 0 and not GUARD.busy and not a and not kw:
+                log.count("M-clone:calls")
+                if budget.take():
+                    with GUARD:
+                        try:
+                            judge(self, c, orig)
+                        except Exception:
+                            log.count("M-clone:monitor_errors")
+                else:
+                    log.count("M-clone:over_budget_not_judged")
+            return c
+
+        return clone
+
+    for cls in pclasses:
+        f = cls.__dict__.get("clone")
+        if f is not None:
+            saved.append((cls, f))
+            setattr(cls, "clone", make(f, judge_problem))
+    for cls in action_classes():
+        f = cls.__dict__.get("clone")
+        if f is not None:
+            saved.append((cls, f))
+            setattr(cls, "clone", make(f, judge_action))
+
+    def un():
+        for cls, f in saved:
+            setattr(cls, "clone", f)
+
+    return un
+
+
+# ------------------------------------------------------------------------------------------------------------ M-kindorder
+def install_kindorder(log):
+    """Every ProblemKind ==, <=, hash, union, intersection evaluated by the workload is compared with the set-of-features
+    model of C33 (vk/ref/lattice.py). Operands are read (public accessors) BEFORE the call: `<=` prunes its operands."""
+    from unified_planning.model.problem_kind import ProblemKind
+    from vk.ref import lattice as L
+
+    o_eq, o_le, o_hash, o_union, o_inter = ProblemKind.__eq__, ProblemKind.__le__, ProblemKind.__hash__, ProblemKind.union, ProblemKind.intersection
+    hashes = {}  # (version, valid features) -> (hash, repr)
+
+    def model(k):
+        return L.K(frozenset(k.features), k.version)
+
+    def show(m):
+        return f"ProblemKind({sorted(m.raw)}, version={m.version})"
+
+    def guarded(fn):
+        try:
+            with GUARD:
+                fn()
+        except Exception:
+            log.count("M-kindorder:monitor_errors")
+
+    def __eq__(self, oth):
+        if GUARD.busy or not isinstance(oth, ProblemKind):
+            return o_eq(self, oth)
+        try:
+            ma, mb = model(self), model(oth)
+        except Exception:
+            ma = mb = None
+        r = o_eq(self, oth)
+
+        def j():
+            log.count("M-kindorder:judged")
+            log.count("M-kindorder:eq")
+            if ma.version != mb.version:
+                log.count("M-kindorder:cross_version")
+                if r:
+                    log.violation("C33", "kinds-of-different-versions-equal", f"{show(ma)} == {show(mb)} although their versions differ")
+            elif bool(r) != L.eq(ma, mb):
+                log.violation("C33", "eq-differs-from-set-model", f"{show(ma)} == {show(mb)} is {r}; the valid feature sets are {sorted(ma.feats)} / {sorted(mb.feats)}")
+
+        if ma is not None and r is not NotImplemented:
+            guarded(j)
+        return r
+
+    def __le__(self, oth):
+        if GUARD.busy or not isinstance(oth, ProblemKind):
+            return o_le(self, oth)
+        try:
+            ma, mb = model(self), model(oth)
+        except Exception:
+            ma = mb = None
+        r = o_le(self, oth)
+
+        def j():
+            log.count("M-kindorder:judged")
+            log.count("M-kindorder:le")
+            exp = L.le(ma, mb)
+            if ma.version != mb.version:
+                log.count("M-kindorder:cross_version")
+                if bool(r) != exp:
+                    log.violation("C33", "cross-version-le-differs-from-upgrade-model", f"{show(ma)} <= {show(mb)} is {r}; upgrading the older one gives {exp}")
+            elif bool(r) != exp:
+                log.violation("C33", "le-differs-from-set-model", f"{show(ma)} <= {show(mb)} is {r}; the valid feature sets {sorted(ma.feats)} / {sorted(mb.feats)} give {exp}")
+            if self is oth and not r:
+                log.violation("C33", "not-reflexive", f"{show(ma)} is not <= itself")
+
+        if ma is not None:
+            guarded(j)
+        return r
+
+    def __hash__(self):
+        r = o_hash(self)
+        if GUARD.busy:
+            return r
+
+        def j():
+            m = model(self)
+            log.count("M-kindorder:judged")
+            log.count("M-kindorder:hash")
+            key = (m.version, m.feats)
+            prev = hashes.get(key)
+            if prev is None:
+                hashes[key] = (r, m.raw)
+            elif prev[0] != r:
+                only_dep = all(not L.is_valid(f, m.version) for f in set(prev[1]) ^ set(m.raw))
+                log.violation("C33", "equal-kinds-hash-differ" + (":deprecated-features" if only_dep and prev[1] != m.raw else ""), f"{show(m)} and ProblemKind({sorted(prev[1])}, version={m.version}) are equal kinds with different hashes")
+
+        guarded(j)
+        return r
+
+    def binop(orig, name, mop, up):
+        def op(self, oth):
+            if GUARD.busy or not isinstance(oth, ProblemKind):
+                return orig(self, oth)
+            try:
+                ma, mb = model(self), model(oth)
+            except Exception:
+                ma = mb = None
+            r = orig(self, oth)
+
+            def j():
+                log.count("M-kindorder:judged")
+                log.count("M-kindorder:" + name)
+                mr = model(r)
+                w = max(ma.version, mb.version)
+                if ma.version == mb.version:
+                    if r.version != w:
+                        log.violation("C33", f"{name}-changes-version", f"{name} of two version-{w} kinds has version {r.version}")
+                    elif mr.feats != mop(ma, mb).feats:
+                        log.violation("C33", f"{name}-differs-from-set-model", f"{name}({show(ma)}, {show(mb)}) = {show(mr)}; the set model gives {sorted(mop(ma, mb).feats)}")
+                else:
+                    log.count("M-kindorder:cross_version")
+                    if up:
+                        if r.version != w:
+                            log.violation("C33", "union-keeps-lower-version", f"union of versions {ma.version} and {mb.version} has version {r.version}")
+                        elif not (L.le(ma, mr) and L.le(mb, mr)):
+                            log.violation("C33", "cross-version-union-is-not-a-bound", f"union({show(ma)}, {show(mb)}) = {show(mr)} is not above both arguments")
+
+            if ma is not None:
+                guarded(j)
+            return r
+
+        return op
+
+    ProblemKind.__eq__ = __eq__
+    ProblemKind.__le__ = __le__
+    ProblemKind.__hash__ = __hash__
+    ProblemKind.union = binop(o_union, "union", L.union, True)
+    ProblemKind.intersection = binop(o_inter, "intersection", L.intersection, False)
+
+    def un():
+        ProblemKind.__eq__, ProblemKind.__le__, ProblemKind.__hash__ = o_eq, o_le, o_hash
+        ProblemKind.union, ProblemKind.intersection = o_union, o_inter
+
+    return un
+
+
+# ------------------------------------------------------------------------------------------- random first-order models
+class _Unjudgeable(Exception):
+    pass
+
+
+_TEMPORAL_NODES = ("TIMING_EXP", "PRESENT_EXP", "DOT", "ALWAYS", "SOMETIME", "SOMETIME_BEFORE", "SOMETIME_AFTER", "AT_MOST_ONCE", "INTERPRETED_FUNCTION_EXP")
+
+
+def _scan(exprs):
+    """Leaves of a set of expressions: fluents by name, parameters, variables, objects by user type. Raises _Unjudgeable for
+    anything the reference evaluator does not interpret (quantifiers are reported, not rejected)."""
+    fl, ps, vs, objs, quant = {}, {}, {}, {}, False
+    st = list(exprs)
+    seen = set()
+    while st:
+        x = st.pop()
+        if x in seen:
+            continue
+        seen.add(x)
+        n = x.node_type.name
+        if n in _TEMPORAL_NODES:
+            raise _Unjudgeable(n)
+        if x.is_fluent_exp():
+            f = x.fluent()
+            if fl.setdefault(f.name, f) is not f and fl[f.name] != f:
+                raise _Unjudgeable("two-fluents-one-name")
+        elif x.is_parameter_exp():
+            p = x.parameter()
+            if ps.setdefault(p.name, p.type) != p.type:
+                raise _Unjudgeable("two-parameters-one-name")
+        elif x.is_variable_exp():
+            v = x.variable()
+            if vs.setdefault(v.name, v.type) != v.type:
+                raise _Unjudgeable("two-variables-one-name")
+        elif x.is_object_exp():
+            o = x.object()
+            objs.setdefault(o.name, o.type)
+        elif x.is_exists() or x.is_forall():
+            quant = True
+        st.extend(x.args)
+    return fl, ps, vs, objs, quant
+
+
+def _subtype(t, sup):
+    while t is not None:
+        if t == sup:
+            return True
+        t = t.father
+    return False
+
+
+class _Model:
+    """A random first-order interpretation for vk.ref.evalx.ev: parameters / free variables get a value of their declared
+    type, every fluent is a lazily filled random function table (fluent name, argument values) -> value of its type.
+    User-typed values are names: the objects that occur in the expressions plus two fresh elements per type."""
+
+    def __init__(self, rng, fl, ps, vs, objs, corner=0.5):
+        self.rng, self.fl, self.objs, self.corner = rng, fl, objs, corner
+        self.table = _Table(self)
+        self.params = {n: self.value(t) for n, t in sorted(ps.items())}
+        self.vars = {n: self.value(t) for n, t in sorted(vs.items())}
+
+    def value(self, t):
+        rng = self.rng
+        if t.is_bool_type():
+            return rng.random() < 0.5
+        if t.is_user_type():
+            pool = sorted(n for n, ot in self.objs.items() if _subtype(ot, t)) + [f"#{t.name}#1", f"#{t.name}#2"]
+            return rng.choice(pool)
+        if t.is_int_type() or t.is_real_type():
+            lb, ub = t.lower_bound, t.upper_bound
+            corners = [x for x in (lb, ub) if x is not None]
+            if corners and rng.random() < self.corner:
+                v = rng.choice(corners)
+            else:
+                cands = [0, 1, -1, 2, 3, 5, -7, 10, 2**53 + 1, -(10**18)]
+                if t.is_real_type():
+                    cands += [Fraction(1, 3), Fraction(-5, 2), Fraction(7, 2)]
+                if lb is not None and ub is not None:
+                    cands += [lb + (ub - lb) // 2 if t.is_int_type() else (Fraction(lb) + Fraction(ub)) / 2]
+                    if t.is_int_type() and ub - lb < 64:
+                        cands += [rng.randint(int(lb), int(ub))]
+                cands = [c for c in cands if (lb is None or c >= lb) and (ub is None or c <= ub)]
+                v = rng.choice(cands) if cands else (lb if lb is not None else ub)
+            if t.is_int_type():
+                return int(v)
+            v = Fraction(v)
+            return int(v) if v.denominator == 1 else v
+        raise _Unjudgeable("type " + str(t))
+
+    def interp(self):
+        from vk.ref.evalx import Interp
+
+        return Interp(_NoProblem, self.table, self.params, self.vars)
+
+
+class _Table(dict):
+    def __init__(self, model):
+        super().__init__()
+        self.model = model
+
+    def get(self, key, default=None):
+        if key not in self:
+            f = self.model.fl.get(key[0])
+            if f is None:
+                return default
+            self[key] = self.model.value(f.type)
+        return self[key]
+
+
+# ------------------------------------------------------------------------------------------------------------------ M-dnf
+def install_dnf(log, models=24):
+    """Every Nnf.get_nnf_expression / Dnf.get_dnf_expression result (quantifier-free inputs, as in C12's quantifier): shape
+    predicates of vk/checks/c12.py and equal truth value of input and output under random first-order interpretations."""
+    from unified_planning.model.walkers.dnf import Dnf, Nnf
+    from vk.checks.c12 import nnf_shape, dnf_shape
+    from vk.ref.evalx import ev, UNDEF, Unsupported
+
+    o_nnf, o_dnf = Nnf.get_nnf_expression, Dnf.get_dnf_expression
+    rng = random.Random(4242)
+    seen = set()
+
+    def judge(name, shape, e, out):
+        key = (name, e)
+        if key in seen:
+            log.count(f"M-dnf:repeated_{name}")
+            return
+        seen.add(key)
+        log.count("M-dnf:calls")
+        try:
+            fl, ps, vs, objs, quant = _scan([e, out])
+        except _Unjudgeable as u:
+            log.count("M-dnf:unjudged:" + str(u))
+            return
+        if quant:
+            log.count("M-dnf:unjudged:quantified")
+            return
+        if not e.type.is_bool_type():
+            log.count("M-dnf:unjudged:non-boolean")
+            return
+        log.count("M-dnf:judged")
+        log.count("M-dnf:judged:" + name)
+        sh = shape(out)
+        if sh:
+            log.violation("C12", f"{name}-shape", f"{name}({e}) = {out}: {sh}")
+            return
+        if out is not e:
+            log.count("M-dnf:changed")
+        n = 0
+        for _ in range(models):
+            try:
+                m = _Model(rng, fl, ps, vs, objs, corner=0.2)
+                I = m.interp()
+                a = ev(e, I, "strict")
+                if a is UNDEF:
+                    continue
+                b = ev(out, I, "strict")
+            except (_Unjudgeable, Unsupported, ZeroDivisionError, TypeError, AttributeError, KeyError):
+                log.count("M-dnf:model_unsupported")
+                break
+            n += 1
+            if b is UNDEF or bool(a) != bool(b):
+                log.violation("C12", f"{name}-not-equivalent", f"{name}({e}) = {out}: input is {a}, output is {b} under fluents={dict(m.table)} params={m.params} vars={m.vars}")
+                break
+        log.count("M-dnf:models", n)
+
+    def get_nnf_expression(self, expression):
+        out = o_nnf(self, expression)
+        if not GUARD.busy:
+            with GUARD:
+                try:
+                    judge("nnf", nnf_shape, expression, out)
+                except Exception:
+                    log.count("M-dnf:monitor_errors")
+        return out
+
+    def get_dnf_expression(self, expression):
+        out = o_dnf(self, expression)
+        if not GUARD.busy:
+            with GUARD:
+                try:
+                    judge("dnf", dnf_shape, expression, out)
+                except Exception:
+                    log.count("M-dnf:monitor_errors")
+        return out
+
+    Nnf.get_nnf_expression = get_nnf_expression
+    Dnf.get_dnf_expression = get_dnf_expression
+
+    def un():
+        Nnf.get_nnf_expression, Dnf.get_dnf_expression = o_nnf, o_dnf
+
+    return un
+
+
+# ---------------------------------------------------------------------------------------------------------------- M-types
+def install_types(log, models=16):
+    """Every TypeChecker.get_type result for an arithmetic expression (+ - * /, division by non-zero constants only): exact
+    rational evaluation under random first-order interpretations whose leaves range over their declared types (corners of the
+    declared intervals half of the time) must stay inside the inferred interval, integer-typed => integer value. Every
+    Equals judged well-formed / ill-formed is re-judged with mirrored operand types: both must be accepted or both rejected."""
+    from unified_planning.model.walkers.type_checker import TypeChecker
+    from unified_planning.exceptions import UPTypeError
+    from vk.ref.evalx import ev, UNDEF, Unsupported
+
+    o_get = TypeChecker.get_type
+    o_eq = TypeChecker.walk_equals
+    rng = random.Random(1515)
+    seen = set()
+    ARITH = ("PLUS", "MINUS", "TIMES", "DIV")
+
+    def judge_arith(e, t):
+        st = [e]
+        while st:
+            x = st.pop()
+            if x.is_div() and not x.arg(1).is_constant():
+                log.count("M-types:dontcare:non-constant-divisor")
+                return
+            st.extend(x.args)
+        try:
+            fl, ps, vs, objs, quant = _scan([e])
+        except _Unjudgeable as u:
+            log.count("M-types:unjudged:" + str(u))
+            return
+        if quant:
+            log.count("M-types:unjudged:quantified")
+            return
+        if not (t.is_int_type() or t.is_real_type()):
+            log.violation("C15", "numeric-expression-non-numeric-type", f"type of the arithmetic expression {e} is {t}")
+            return
+        lo, hi = t.lower_bound, t.upper_bound
+        log.count("M-types:judged")
+        if lo is not None or hi is not None:
+            log.count("M-types:with_finite_bound")
+        n = 0
+        for _ in range(models):
+            try:
+                m = _Model(rng, fl, ps, vs, objs, corner=0.6)
+                v = ev(e, m.interp(), "strict")
+            except (_Unjudgeable, Unsupported, ZeroDivisionError, TypeError, AttributeError, KeyError):
+                log.count("M-types:model_unsupported")
+                break
+            if v is UNDEF or isinstance(v, (bool, str)):
+                continue
+            n += 1
+            why = None
+            if lo is not None and v < lo:
+                why = "below"
+            elif hi is not None and v > hi:
+                why = "above"
+            elif t.is_int_type() and Fraction(v).denominator != 1:
+                why = "non-integer"
+            if why:
+                log.violation("C15", f"unsound-type:{e.node_type.name}:{why}", f"{e} has inferred type {t} but evaluates to {v} under fluents={dict(m.table)} params={m.params} vars={m.vars}")
+                break
+        log.count("M-types:points", n)
+
+    def judge_equals(tc, e, accepted):
+        ts = []
+        for a in e.args:
+            ts.append(o_get(tc, a))
+        log.count("M-types:equalities")
+        try:
+            mirrored = o_eq(tc, e, list(reversed(ts))) is not None
+        except UPTypeError:
+            mirrored = False
+        if ts[0] != ts[1]:
+            log.count("M-types:equalities_of_different_types")
+        if mirrored != accepted:
+
+            def tclass(t):
+                for n in ("bool", "int", "real", "time", "user"):
+                    if getattr(t, f"is_{n}_type")():
+                        return n
+                return type(t).__name__
+
+            pair = "-vs-".join(sorted(tclass(t) for t in ts))  # one string per root cause, whatever the operand order
+            log.violation("C15", f"equality-asymmetric:{pair}", f"Equals of operand types ({ts[0]}, {ts[1]}) is {'accepted' if accepted else 'rejected'} but mirrored it is {'accepted' if mirrored else 'rejected'}: {e}")
+
+    def get_type(self, expression):
+        if GUARD.busy:
+            return o_get(self, expression)
+        key = (id(self), expression)
+        if key in seen:
+            return o_get(self, expression)
+        try:
+            t = o_get(self, expression)
+            ex = None
+        except UPTypeError as x:
+            t, ex = None, x
+        seen.add(key)
+        log.count("M-types:calls")
+        nt = expression.node_type.name
+        with GUARD:
+            try:
+                if nt == "EQUALS" and len(expression.args) == 2:
+                    judge_equals(self, expression, ex is None)
+                elif ex is None and nt in ARITH:
+                    judge_arith(expression, t)
+            except Exception:
+                log.count("M-types:monitor_errors")
+        if ex is not None:
+            raise ex
+        return t
+
+    TypeChecker.get_type = get_type
+    return lambda: setattr(TypeChecker, "get_type", o_get)
+
+
+# ---------------------------------------------------------------------------------------------------------------- M-names
+class _LogRes:
+    """The vk.core.Result API of the check modules on top of a monitor Log (lets a monitor reuse a check's judge function)."""
+
+    def __init__(self, log, prop, prefix):
+        self.log, self.prop, self.prefix = log, prop, prefix
+
+    @property
+    def violations(self):
+        return self.log.violations
+
+    def count(self, k, n=1):
+        self.log.count(self.prefix + k, n)
+
+    def case(self, n=1):
+        pass
+
+    def mon(self, n=1):
+        pass
+
+    def nt(self, k):
+        pass
+
+    def sample(self, o):
+        pass
+
+    def violation(self, mechanism, summary, witness=None):
+        self.log.violation(self.prop, mechanism, summary)
+
+
+def install_names(log):
+    """Every PDDLWriter / ANMLWriter output produced by the workload: the names the observed writer object chose (its own
+    get_pddl_name / get_item_named tables; the (item, name) pairs flowing through _get_anml_name) and the text it wrote are
+    judged by the lexical oracle of C38 (vk/checks/c38.judge_pddl_output / judge_anml_output, vk/ref/names.py)."""
+    from io import StringIO
+
+    import unified_planning.io.anml_writer as aw
+    from unified_planning.io.pddl_writer import PDDLWriter
+    from unified_planning.model import Problem
+    from vk.checks import c38 as _c38
+
+    res = _LogRes(log, "C38", "M-names:")
+    o_dom, o_prob, o_anml, o_name = PDDLWriter._write_domain, PDDLWriter._write_problem, aw.ANMLWriter._write_problem, aw._get_anml_name
+    texts = {}  # id(writer) -> [writer, domain text, problem text]
+    captures = []
+
+    def judge_pddl(w):
+        pb = w.problem
+        if not isinstance(pb, Problem):
+            log.count("M-names:unjudged:problem-class:" + type(pb).__name__)
+            return
+        _, dom, prob = texts[id(w)]
+        log.count("M-names:judged")
+        _c38.judge_pddl_output(w, dom or "", prob or "", _c38.item_groups(pb, {}), {"history": "suite"}, res, False)
+
+    def pddl(orig, slot):
+        def write(self, out):
+            if GUARD.busy:
+                return orig(self, out)
+            buf = StringIO()
+            try:
+                r = orig(self, buf)
+            finally:
+                out.write(buf.getvalue())
+            with GUARD:
+                try:
+                    ent = texts.get(id(self))
+                    if ent is None or ent[0] is not self:
+                        if len(texts) > 64:
+                            texts.clear()
+                        ent = texts[id(self)] = [self, None, None]
+                    ent[slot] = buf.getvalue()
+                    judge_pddl(self)
+                except Exception:
+                    log.count("M-names:monitor_errors")
+            return r
+
+        return write
+
+    def _get_anml_name(item, names_mapping):
+        n = o_name(item, names_mapping)
+        if captures:
+            captures[-1].append((item, n))
+        return n
+
+    def anml(self, out):
+        if GUARD.busy:
+            return o_anml(self, out)
+        buf = StringIO()
+        captures.append([])
+        try:
+            r = o_anml(self, buf)
+        finally:
+            pairs = captures.pop()
+            out.write(buf.getvalue())
+        with GUARD:
+            try:
+                pb = self.problem
+                if isinstance(pb, Problem):
+                    log.count("M-names:judged")
+                    _c38.judge_anml_output(pairs, buf.getvalue(), _c38.item_groups(pb, {}), {}, {}, res)
+                else:
+                    log.count("M-names:unjudged:problem-class:" + type(pb).__name__)
+            except Exception:
+                log.count("M-names:monitor_errors")
+        return r
+
+    PDDLWriter._write_domain = pddl(o_dom, 1)
+    PDDLWriter._write_problem = pddl(o_prob, 2)
+    aw.ANMLWriter._write_problem = anml
+    aw._get_anml_name = _get_anml_name
+
+    def un():
+        PDDLWriter._write_domain, PDDLWriter._write_problem = o_dom, o_prob
+        aw.ANMLWriter._write_problem = o_anml
+        aw._get_anml_name = o_name
 
     return un
